@@ -1791,7 +1791,7 @@ class EStream(Engine):
                 items.append({'t': 'struct', 'e': g.pick(['<', '>', '@', '=']),
                               'codes': g.pick(['H', 'b', 'B', 'h', '2H', 'hb', 'L', 'q', 'e', 'f', 'd', 'bH', '3b'])})
             elif k == 'kw':
-                key = g.pick(['n', 'm', 'w'])
+                key = g.pick(['n', 'm', 'w', 'pos'])        # (any keyword name that is not a parameter of the public method)
                 name = g.pick(['uint', 'int', 'bin', 'hex', 'bits', 'pad', 'bytes'])
                 if key not in kw and not g.chance(0.08):
                     v = g.wpick([(g.int(0, 12), 6), (r, 1), (r + 1, 1), (-g.int(1, 9), 0.6)])
